@@ -83,6 +83,9 @@ type replayInput struct {
 	Families   []string      `json:"families"`
 	OnlyFamily string        `json:"onlyFamily"`
 	Variant    *int          `json:"variant"`
+	// IndexOffset re-creates the concretisation of a recorded case (names, prefixes and
+	// request shapes are drawn from VERIF_SEED and the behaviour's index)
+	IndexOffset int `json:"indexOffset"`
 }
 
 // terminal stands where the resolver would be.
@@ -1032,8 +1035,9 @@ func TestC03Replay(t *testing.T) {
 		fams = families
 	}
 	seed := vh.Seed()
-	for bi := range in.Behaviours {
-		beh := &in.Behaviours[bi]
+	for pos := range in.Behaviours {
+		beh := &in.Behaviours[pos]
+		bi := pos + in.IndexOffset
 		fam := fams[(bi+int(seed))%len(fams)]
 		if in.OnlyFamily != "" {
 			fam = in.OnlyFamily
@@ -1079,7 +1083,7 @@ func TestC03Replay(t *testing.T) {
 		}
 		sort.Strings(ops)
 		res.Case("beh:" + fam + ":" + strings.Join(ops, ","))
-		if bi < 3 {
+		if pos < 3 {
 			b, _ := json.Marshal(map[string]any{"behaviour": beh.Name, "family": fam, "names": map[string]string{
 				"n": strconv.QuoteToASCII(u.name["n"]), "N": strconv.QuoteToASCII(u.name["N"]), "e": strconv.QuoteToASCII(u.name["e"])}, "history": r.history})
 			var v any
